@@ -19,6 +19,15 @@ import (
 	"verif/dst/sim"
 )
 
+// outRoot is where evidence and replay files go (VERIF_OUT_DIR redirects them, used by the
+// mutant runner so that sensitivity runs never overwrite the evidence of the real tree).
+func outRoot() string {
+	if r := os.Getenv("VERIF_OUT_DIR"); r != "" {
+		return r
+	}
+	return verifRoot()
+}
+
 func verifRoot() string {
 	if r := os.Getenv("VERIF_ROOT"); r != "" {
 		return r
@@ -586,7 +595,7 @@ func runEnum(pr *props.Property, tier string, seed uint64, a *agg, findings []Fi
 }
 
 func writeEnumReplay(prop string, seed uint64, v sim.Violation) string {
-	dir := filepath.Join(verifRoot(), "replays")
+	dir := filepath.Join(outRoot(), "replays")
 	os.MkdirAll(dir, 0o755)
 	path := filepath.Join(dir, fmt.Sprintf("%s-%d-enum-%x.json", prop, seed, sim.HashStr(v.Class+v.Sig)&0xffffff))
 	b, _ := json.MarshalIndent(map[string]any{"prop": prop, "kind": "input-enumeration", "expect": map[string]string{"class": v.Class, "sig": v.Sig, "detail": v.Detail}}, "", " ")
@@ -681,7 +690,7 @@ func confirmAndMinimise(pr *props.Property, plan *sim.Plan, fv foundViolation, n
 	} else {
 		best.Expect.Detail = tail(final.stderr, 4000)
 	}
-	dir := filepath.Join(verifRoot(), "replays")
+	dir := filepath.Join(outRoot(), "replays")
 	os.MkdirAll(dir, 0o755)
 	path := filepath.Join(dir, fmt.Sprintf("%s-%d-%d-%x.json", pr.ID, plan.VSeed, plan.Index, sim.HashStr(fv.v.Class+fv.v.Sig)&0xffff))
 	if err := best.Save(path); err != nil {
